@@ -71,6 +71,29 @@ def eval_pipeline(case):
     if v is not None:
         return v
     nev = 1
+    if devs in ((), ('trough',)):
+        # rows handed back by limit_df (sample columns re-based to the window start, incl. a start on the HALF-sample grid): every
+        # feature must still be the documented function of the row's own cyclepoints and the windowed signal
+        from bycycle.utils import limit_df
+        sc_ = sample_cols(o['center_extrema'])
+        for start_samp in (12.5, 9, 6.5):
+            out = limit_df(df.copy(), o['fs'], start=start_samp / o['fs'], stop=None, reset_indices=True)
+            nev += 1
+            if len(out) == 0:
+                continue
+            kept = df[df[sc_['last']] >= start_samp]
+            if len(kept) != len(out):
+                continue          # row selection is C18's matter
+            shifts = set((kept[sc_['centre']].to_numpy() - out[sc_['centre']].to_numpy()).tolist())
+            if len(shifts) != 1:
+                continue
+            sh = int(shifts.pop())
+            exp = [ref_shape_row(r, sig[sh:], o['center_extrema']) for r in out.to_dict('records')]
+            for c in SHAPE_COLS:
+                if not same_values(out[c].to_numpy().astype(float), np.array([e[c] for e in exp], dtype=float), exact=c in INT_COLS):
+                    return VIOL(dict(sgn, kind='value', col=c, via='limit_df'), 'after limit_df(start=%g/fs, reset_indices=True) column %s is no longer '
+                                'the documented function of the row\'s own cyclepoints' % (start_samp, c),
+                                expected=[e[c] for e in exp], observed=out[c].tolist(), evals=nev)
     # compute_shape_features itself
     kw = S.call_kwargs(o)
     dsh = compute_shape_features(np.array(sig), o['fs'], o['f_range'], center_extrema=o['center_extrema'],
@@ -330,14 +353,14 @@ def spaces(tier, seed):
         out.append(ProductSpace('aliased-buffer', S.word_dims(S.alphabet(4), 5) + [ali], eval_aliased,
                                 describe='one pre-allocated array analysed twice with different content (in-place overwrite) x centring x entry point'))
     if tier != 'quick':
-        al = S.alphabet(8, seed, extra=0)
-        out.append(ProductSpace('W(8,5)xopts', S.word_dims(al, 5) + [OPT_Q[:8]], eval_pipeline,
+        al = S.alphabet(7, seed, extra=0)
+        out.append(ProductSpace('W(7,5)xopts', S.word_dims(al, 5) + [OPT_Q[:8]], eval_pipeline,
                                 bounds={'letters': al, 'option_sets': 8}))
         ex = S.alphabet(0, seed, extra=2) + S.alphabet(3)
         out.append(ProductSpace('Wextra(5,5)xopts', S.word_dims(ex, 5) + [OPT_T], eval_pipeline,
                                 bounds={'letters': ex, 'option_sets': len(OPT_T)}))
-        out.append(ProductSpace('W(6,6)xcentring', S.word_dims(S.alphabet(6), 6) + [[(), ('trough',)]], eval_pipeline,
-                                bounds={'letters': S.alphabet(6)}))
+        out.append(ProductSpace('W(5,6)xcentring', S.word_dims(S.alphabet(5), 6) + [[(), ('trough',)]], eval_pipeline,
+                                bounds={'letters': S.alphabet(5)}))
         out.append(ProductSpace('helpers{-1,0,1,2}^6', [[-1, 0, 1, 2]] * 6, eval_helpers,
                                 bounds={'tables_per_signal': len(tiling_tables(6))}))
         out.append(ProductSpace('bandamp-words-8', S.word_dims(S.alphabet(8), 2), eval_bandamp))
